@@ -333,6 +333,16 @@ def main(argv=None):
     for e in errors[:10]:
         print("HARNESS-ERROR cell=%s: %s" % (e["cell"], e["error"][-1500:]), file=sys.stderr)
     c = evidence["coverage"]
+    if os.environ.get("VP_COLLECT"):
+        for k, v in sorted(c["counters"].items()):
+            if k.startswith("fail:"):
+                print("  %6d  %s" % (v, k))
+        os.makedirs(os.path.join(RUN_DIR, "collect"), exist_ok=True)
+        for k, v in c["known_finding_samples"].items():
+            if k.startswith("fail:"):
+                fn = os.path.join(RUN_DIR, "collect", "".join(ch if ch.isalnum() else "_" for ch in k) + ".json")
+                with open(fn, "w") as fh:
+                    json.dump({"property": prop, "cell": {}, "case": v["case"], "failure": v["failure"]}, fh, default=dump_case)
     print("%s %s seed=%d: %d evaluations, %d distinct non-trivial, %d undecided, "
           "%d violations, %.1fs" % (prop, a.tier, seed, c["evaluations"],
                                     c["distinct_nontrivial"], c["undecided"],
